@@ -453,3 +453,52 @@ func VerifC09CLINonsense() {
 	vf.Assert("no-result-in-the-output-file", len(b) == 0)
 	vf.Reach("end")
 }
+
+// VerifC09InfoCommands: the info / gen commands never panic on arbitrary short flag values,
+// and a failing command prints nothing.
+func VerifC09InfoCommands() {
+	which := vf.NondetIntRange("command", 0, 5)
+	var cmd *cobra.Command
+	var flags []string
+	switch which {
+	case 0:
+		cmd = infoCmdAttrDescribe
+		target := []string{"Major3", "Diminished5", "nosuch", ""}[vf.NondetIntRange("target", 0, 3)]
+		n := vf.NondetIntRange("root.len", 0, vf.Param("C09.flagLen", 2))
+		flags = []string{"--target", target, "--root", vf.NondetString("root", n)}
+		if vf.NondetIntRange("sharp", 0, 1) == 1 {
+			flags = append(flags, "--precedeSharp")
+		}
+	case 1:
+		cmd = infoCmdChordDescribe
+		flags = []string{"--target", []string{"C_7", "Caug", "Xm", "", "C/", "Dbm7", "C[", "4m", "C#nosuch", "R", "Cm7/G"}[vf.NondetIntRange("target", 0, 10)]}
+	case 2:
+		cmd = infoKeyCmdDescribe
+		n := vf.NondetIntRange("key.len", 0, vf.Param("C09.flagLen", 2)+1)
+		flags = []string{"--key", vf.NondetString("key", n)}
+	case 3:
+		cmd = infoKeyCmdConv
+		n := vf.NondetIntRange("chain.len", 0, vf.Param("C09.flagLen", 2))
+		flags = []string{"--key", []string{"C", "Ebm", "Abm", "x"}[vf.NondetIntRange("key", 0, 3)], "--command", vf.NondetString("chain", n)}
+	case 4:
+		cmd = genCmdAttr
+		flags = []string{"--maxDegree", []string{"0", "1", "2", "9", "20", "23"}[vf.NondetIntRange("max", 0, 5)]}
+	case 5:
+		cmd = []*cobra.Command{infoCmdAttrList, infoCmdChordList, infoKeyCmdList}[vf.NondetIntRange("list", 0, 2)]
+	}
+	flags = append(flags, "--output", "")
+	perr := cmd.ParseFlags(flags)
+	if perr != nil {
+		vf.Reach("flag-error")
+		return
+	}
+	printed, err := verifCapture("info-stdout", func() error { return cmd.RunE(cmd, nil) })
+	if err != nil {
+		vf.Assert("nothing-printed-by-a-failing-command", printed == "")
+		vf.Reach("failed")
+	} else {
+		vf.Assert("a-successful-command-prints-its-result", printed != "")
+		vf.Reach("printed")
+	}
+	vf.Reach("end")
+}
